@@ -17,8 +17,11 @@ func (m *FixPeriodPlanner) Process(ctx *shared.PlannerContext,
 	in chan []shared.LogEntry) (chan []shared.LogEntry, error) {
 	_from := ctx.From.UnixNano()
 	_to := ctx.To.UnixNano()
-	ctx.From = ctx.From.Truncate(m.Duration)
-	ctx.To = ctx.To.Truncate(m.Duration).Add(m.Duration)
+	// whole range windows as the SQL counts them (multiples of the range since the Unix epoch;
+	// Time.Truncate counts from year 1 and is off for ranges that do not divide that offset, e.g. 7s)
+	d := m.Duration.Nanoseconds()
+	ctx.From = time.Unix(0, _from/d*d)
+	ctx.To = time.Unix(0, _to/d*d+d)
 
 	_in, err := m.Main.Process(ctx, in)
 	if err != nil {
